@@ -42,7 +42,7 @@ ASSUMPTIONS = ['names are compared through vocabulary tables sent to the model (
                '(the model returns "other exception" for them)']
 
 STATES = ['slew', 'track', 'scan', 'stop']
-LABELS = ['', 'track', 'raster', 'cal', 'point']
+LABELS = ['', 'track', 'raster', 'cal', 'point', 'drift scan', 'noise diode']   # free text: inner blanks are legal
 TAGS = ['radec', 'azel', 'bpcal', 'gaincal', 'target', 'fluxcal', 'nope', 'special']
 TNAMES = ['A', 'Aalias', 'B', 'C', 'Cee', 'PKS 1934-63', 'J1939-6342', 'D', 'Dd', 'E', 'Moon', 'nope']
 ANTS = ['m000', 'm001', 'm062', 'm063', 'm999']
@@ -734,8 +734,9 @@ def run(ctx):
     logging.getLogger('katpoint').setLevel(logging.ERROR)
     rng = ctx.rng
     # 1. known-finding witnesses first
-    if not ctx.model_ok and not search_without_model(ctx):
-        return
+    if (not ctx.model_ok or getattr(ctx, 'searching', False)) and not search_without_model(ctx):
+        if not ctx.model_ok:
+            return
     from props import c02x
     for f in ctx.findings:
         if f['witness'].get('x'):
@@ -891,16 +892,92 @@ def exhaustive_pairs(ctx):
     ctx.count('pair_histories', len(histories))
 
 
-def search_without_model(ctx):
-    """The translator or the model build failed (broken tie): search for a failing input against the last model
-    binary that was built from a good tree, if there is one; otherwise there is nothing to compare against and the
-    pipeline reports the broken obligation with no-failing-input-found."""
+# The failing-input search after a broken tie.  The driver under build/extract is the one of the LAST tree whose
+# translator passed and whose model compiled - that tree need not have been a good one (e.g. the decorator removed:
+# the translator emits sel_atomic = false, the model builds, only the proofs break).  So a copy of the driver is kept
+# ONLY when the proofs of this check are up to date with it (this module is imported before the pipeline regenerates
+# anything, so what is found at import time belongs to the previous run), and the search uses that copy.
+C02_MODEL_SOURCES = ('Model/Select.v', 'Model/SelectX.v', 'Model/SelectA.v', 'Base/SelSlice.v', 'Base/Sx.v', 'Base/Str.v')
+
+
+def _sources_hash(core):
+    import hashlib
     import os
+    h = hashlib.sha256()
+    for f in C02_MODEL_SOURCES:
+        h.update(open(os.path.join(core.COQ, f), 'rb').read())
+    return h.hexdigest()
+
+
+def _snapshot_driver():
+    try:
+        import os
+        import shutil
+        from vh import core
+        ex = core.EXTRACT_DIR
+        drv, stamp = os.path.join(ex, 'driver'), os.path.join(ex, 'stamp')
+        disp = os.path.join(core.COQ, 'Extract', 'Dispatch.v')
+        if not (os.path.exists(drv) and os.path.exists(stamp) and os.path.exists(disp)):
+            return
+        if 'wire_23' not in open(disp).read():
+            return
+        st = open(stamp).read()
+        if st.split('|')[0] != core.model_hash():      # not the driver of the sources (incl. Generated.v) on disk
+            return
+        rc, _ = core.sh('timeout 20 make -q Props/C02.vo', cwd=core.COQ, timeout=30)
+        if rc != 0:                                    # proofs not up to date with that Generated.v: not a good tree
+            return
+        dst = os.path.join(core.VERIF, 'build', 'c02_last_good')
+        tag = st + _sources_hash(core)
+        if os.path.exists(os.path.join(dst, 'tag')) and open(os.path.join(dst, 'tag')).read() == tag:
+            return
+        os.makedirs(dst, exist_ok=True)
+        tmp = os.path.join(dst, 'driver.tmp.%d' % os.getpid())
+        shutil.copy2(drv, tmp)
+        if open(stamp).read() != st:                   # rebuilt meanwhile by another check
+            os.remove(tmp)
+            return
+        os.replace(tmp, os.path.join(dst, 'driver'))
+        with open(os.path.join(dst, 'tag'), 'w') as f:
+            f.write(tag)
+    except Exception:      # noqa: BLE001 - the snapshot is an optimisation of the search, never a reason to fail
+        pass
+
+
+_snapshot_driver()
+
+
+def search_without_model(ctx):
+    """The translator, the model build or the proofs failed (broken tie): search for a failing input against the model
+    driver kept from the last GOOD tree (same model sources; translator, model and proofs all passed).  Without one
+    there is nothing sound to compare against and the pipeline reports the broken obligation with
+    no-failing-input-found."""
+    import os
+    import subprocess
     from vh import core
-    if os.path.exists(os.path.join(core.EXTRACT_DIR, 'driver')):
-        ctx.extra['searched_with_last_good_model'] = True
-        return True
-    return False
+    dst = os.path.join(core.VERIF, 'build', 'c02_last_good')
+    drv = os.path.join(dst, 'driver')
+    if not (os.path.exists(drv) and os.path.exists(os.path.join(dst, 'tag'))
+            and open(os.path.join(dst, 'tag')).read().endswith(_sources_hash(core))):
+        return False
+
+    def model(cases):
+        if not cases:
+            return []
+        text = '\n'.join(core.to_sx(c) for c in cases) + '\n'
+        p = subprocess.run(['bash', '-c', 'ulimit -s unlimited 2>/dev/null; exec %s' % drv], input=text, stdout=subprocess.PIPE,
+                           stderr=subprocess.PIPE, text=True, timeout=3000, env=dict(os.environ, OCAMLRUNPARAM='l=8G'))
+        if p.returncode:
+            raise RuntimeError('model driver (last good tree) failed rc=%s: %s' % (p.returncode, p.stderr[-2000:]))
+        lines = p.stdout.split('\n')
+        if lines and lines[-1] == '':
+            lines.pop()
+        if len(lines) != len(cases):
+            raise RuntimeError('model driver returned %d lines for %d cases' % (len(lines), len(cases)))
+        return [core.parse_sx(l) for l in lines]
+    ctx.model = model
+    ctx.extra['searched_with_last_good_model'] = True
+    return True
 
 
 def replay(ctx, doc):
